@@ -58,7 +58,7 @@ impl Logs {
         (source_offset, dst_offset1, len1, dst_offset2, len2)
     }
 
-    #[cfg(target_family = "wasm")]
+    #[cfg(any(target_family = "wasm", feature = "sfwa_verif"))]
     pub(crate) fn read_ptrs(&self) -> (*const u8, usize, *const u8, usize) {
         // _After_ filling the buffer, the read offset will _always_ be the
         // same as the write offset.
@@ -75,6 +75,17 @@ impl Logs {
                 self.len - data_to_end,
             )
         }
+    }
+}
+
+#[cfg(feature = "sfwa_verif")]
+impl Logs {
+    pub(crate) fn verif_base(&self) -> usize {
+        self.buffer.as_ptr() as usize
+    }
+
+    pub(crate) fn verif_capacity(&self) -> usize {
+        CAPACITY
     }
 }
 
